@@ -19,7 +19,6 @@ import (
 	"bytes"
 	"encoding/json"
 	"fmt"
-	"sort"
 	"strings"
 
 	"github.com/ontio/ontology-crypto/keypair"
@@ -232,35 +231,6 @@ type history struct {
 	Stub bool    `json:"stub"`
 	Ops  []opRec `json:"ops"`
 	Tag  string  `json:"tag,omitempty"`
-}
-
-// reference bookkeeping for the oracle (one per contract)
-type drec struct {
-	root string
-	exp  uint64
-}
-type cspec struct {
-	admin   *string
-	fns     map[string]map[string]bool  // role -> assigned function names
-	direct  map[string]map[string]bool  // id -> roles named in an accepted admin assignment
-	stored  map[string]map[string]bool  // id -> roles for which the contract actually keeps a token
-	deleg   map[string]map[string]*drec // id -> role -> latest accepted, not withdrawn delegation
-	skipped map[string]bool             // id|role: accepted assignment that stored nothing
-}
-
-func newSpec() *cspec {
-	return &cspec{fns: map[string]map[string]bool{}, direct: map[string]map[string]bool{}, stored: map[string]map[string]bool{},
-		deleg: map[string]map[string]*drec{}, skipped: map[string]bool{}}
-}
-func set2(m map[string]map[string]bool, a, b string) {
-	if m[a] == nil {
-		m[a] = map[string]bool{}
-	}
-	m[a][b] = true
-}
-func (s *cspec) liveStrict(id, r string, now uint64) bool {
-	d := s.deleg[id][r]
-	return d != nil && now < d.exp
 }
 
 type runner struct {
@@ -536,12 +506,8 @@ func (r *runner) exec(h *history, idx int) {
 	r.cur, r.curIdx = h, idx
 	ci := o.C
 	ca := r.caddr[ci]
-	sp := r.spec[ci]
-	now := uint64(o.Now)
 	idA, idB := w.ids[o.A], w.ids[o.B]
-	sA, sB := string(idA.id), string(idB.id)
 	role := w.roles[o.Role]
-	sR := string(role)
 	var signers []common.Address
 	for _, s := range o.Signers {
 		signers = append(signers, w.ids[s[0]].keys[s[1]].Address)
@@ -554,7 +520,6 @@ func (r *runner) exec(h *history, idx int) {
 			w.stub[sigKey(w.ids[i].id, o.KeyNo)] = v
 		}
 	}
-	pv := func(i int) bool { return tbl[i] == 0 }
 
 	sink := common.NewZeroCopySink(nil)
 	var method, coqOp string
@@ -617,166 +582,26 @@ func (r *runner) exec(h *history, idx int) {
 	if o.Now > future {
 		r.c.Count("time:after-2100")
 	}
-	unauthorized := func(why string) {
-		r.c.Fail("unauthorized:"+o.Kind, "a state-changing operation was accepted without the authorisation the contract requires: "+why,
-			map[string]interface{}{"history": h, "step": idx}, res, "refused")
-	}
-
-	// ---- oracle + bookkeeping (accepted operations only)
+	// ---- storage observations for the correspondence
 	switch o.Kind {
-	case "init":
+	case "init", "transfer":
 		obs = append(obs, r.obsAdmin(ci))
-		if res == resTrue {
-			if sp.admin != nil {
-				unauthorized("the admin was already set")
-			}
-			if !idA.valid {
-				unauthorized("admin id is not a valid ONT ID")
-			}
-			s := sA
-			sp.admin = &s
-		}
-	case "transfer":
-		obs = append(obs, r.obsAdmin(ci))
-		if res == resTrue {
-			ok := false
-			if sp.admin != nil {
-				for i, id := range w.ids {
-					if string(id.id) == *sp.admin && pv(i) {
-						ok = true
-					}
-				}
-			}
-			if !ok {
-				unauthorized("the current admin did not prove its identity")
-			}
-			s := sB
-			sp.admin = &s
-		}
-	case "funcs", "ids":
-		if res == resTrue && (sp.admin == nil || *sp.admin != sA || !pv(o.A)) {
-			unauthorized("caller is not the admin or did not prove its identity")
-		}
-		if res != resTrue && sp.admin != nil && *sp.admin == sA && pv(o.A) && len(role) > 0 {
-			allValid := true
-			for _, p := range o.Persons {
-				allValid = allValid && w.ids[p].valid
-			}
-			if allValid {
-				r.c.Fail("deny:admin-call", "an assignment by the admin, with a valid identity proof and well-formed arguments, was not accepted",
-					map[string]interface{}{"history": h, "step": idx}, res, resTrue)
+	case "funcs":
+		obs = append(obs, r.obsFuncs(ci, o.Role))
+	case "ids":
+		seen := map[int]bool{}
+		for _, p := range o.Persons {
+			if !seen[p] {
+				obs = append(obs, r.obsTokens(ci, p))
+				seen[p] = true
 			}
 		}
-		if o.Kind == "funcs" {
-			obs = append(obs, r.obsFuncs(ci, o.Role))
-			if res == resTrue {
-				for _, f := range o.Fns {
-					if w.fns[f] != "" {
-						set2(sp.fns, sR, w.fns[f])
-					}
-				}
-			}
-		} else {
-			seen := map[int]bool{}
-			for _, p := range o.Persons {
-				if !seen[p] {
-					obs = append(obs, r.obsTokens(ci, p))
-					seen[p] = true
-				}
-			}
-			if res == resTrue {
-				for _, p := range o.Persons {
-					sp.applyAssign(string(w.ids[p].id), sR, now, r)
-				}
-			}
-		}
-	case "delegate":
+	case "delegate", "withdraw":
 		obs = append(obs, r.obsDeleg(ci, o.B))
-		if res == resTrue {
-			switch {
-			case !pv(o.A):
-				unauthorized("delegator did not prove its identity")
-			case !sp.stored[sA][sR]:
-				unauthorized("delegator does not hold the role by admin assignment (level 2)")
-			case !idB.valid:
-				unauthorized("delegate is not a valid ONT ID")
-			case sp.stored[sB][sR] || sp.liveStrict(sB, sR, now):
-				unauthorized("delegate already holds the role")
-			case o.Level != 1:
-				unauthorized("delegated level must be below the delegator's level 2 and above 0")
-			case o.Period > maxU32 || now+o.Period > maxU32 || now+o.Period >= uint64(future):
-				unauthorized("delegation must expire strictly before the delegator's own token")
-			}
-			if sp.deleg[sB] == nil {
-				sp.deleg[sB] = map[string]*drec{}
-			}
-			sp.deleg[sB][sR] = &drec{root: sA, exp: now + o.Period}
-			r.expiries = append(r.expiries, now+o.Period)
-			r.c.Count("delegation:accepted")
-		}
-	case "withdraw":
-		obs = append(obs, r.obsDeleg(ci, o.B))
-		if res == resTrue {
-			d := sp.deleg[sB][sR]
-			if !pv(o.A) || d == nil || d.root != sA {
-				unauthorized("initiator did not prove its identity or is not the delegator of the record")
-			}
-			delete(sp.deleg[sB], sR)
-			r.c.Count("delegation:withdrawn")
-		}
-	case "verify":
-		fn := w.fns[o.Fn]
-		want := false
-		onlySkipped := true
-		reason := ""
-		if pv(o.A) {
-			var rs []string
-			for rr := range sp.fns {
-				rs = append(rs, rr)
-			}
-			sort.Strings(rs)
-			for _, rr := range rs {
-				if !sp.fns[rr][fn] {
-					continue
-				}
-				if sp.direct[sA][rr] && now <= uint64(future) {
-					want = true
-					if sp.stored[sA][rr] || !sp.skipped[sA+"|"+rr] {
-						onlySkipped = false
-					}
-					reason = "direct"
-				}
-				if d := sp.deleg[sA][rr]; d != nil && now <= d.exp {
-					want = true
-					onlySkipped = false
-					if now == d.exp {
-						reason = "delegation-at-expiry"
-					} else {
-						reason = "delegation"
-					}
-				}
-			}
-		}
-		got := res == resTrue
-		in := map[string]interface{}{"history": h, "step": idx}
-		switch {
-		case got && !want && !pv(o.A):
-			r.c.Fail("grant:identity-not-proved", "verifyToken confirmed a call although the identity proof failed", in, res, "not RTrue")
-		case got && !want:
-			r.c.Fail("grant:without-role", "verifyToken confirmed a call although the caller holds no role with that function (expired/withdrawn delegation, unassigned function or role)", in, res, "RFalse")
-		case !got && want && onlySkipped:
-			r.c.Fail("assign-skipped-live-delegation", "verifyToken refuses a caller to whom the admin assigned the role: assignOntIDsToRole returned true but stored nothing because the caller held the role through a delegation at that moment", in, res, "RTrue")
-		case !got && want:
-			r.c.Fail("deny:with-role", "verifyToken refused a caller who proved its identity and holds a role with the function", in, res, "RTrue")
-		}
-		if got {
-			r.c.Count("verify:granted:" + reason)
-		} else if res == resErr {
-			r.c.Count("verify:error(identity-not-proved)")
-		} else {
-			r.c.Count("verify:refused")
-		}
 	}
+	// ---- oracle: the call's result against the specification ledger, then verifyToken for
+	// every (account, function) against it
+	r.oracle(h, idx, tbl, res)
 	var sig []string
 	for i, v := range tbl {
 		if v != 2 {
@@ -793,16 +618,6 @@ func (r *runner) exec(h *history, idx int) {
 	r.steps = append(r.steps, fmt.Sprintf("mkStep %d %s %s %s %s", o.Now, hx.CoqList(sig), coqOp, res, hx.CoqList(obs)))
 }
 
-func (sp *cspec) applyAssign(id, role string, now uint64, r *runner) {
-	set2(sp.direct, id, role)
-	if len(sp.stored[id]) > 0 && !sp.stored[id][role] && sp.liveStrict(id, role, now) {
-		sp.skipped[id+"|"+role] = true
-		r.c.Count("assign:skipped-by-live-delegation")
-		return
-	}
-	set2(sp.stored, id, role)
-}
-
 func (r *runner) begin() {
 	r.freshContracts()
 	r.spec = [2]*cspec{newSpec(), newSpec()}
@@ -813,6 +628,7 @@ func (r *runner) begin() {
 
 // finish closes a history: storage-key scan, the Coq case, the non-triviality rule.
 func (r *runner) finish(h *history, emit bool) {
+	r.sweepExpiries(h)
 	r.scanKeys(h)
 	if emit && len(r.steps) > 0 {
 		// the full dump belongs to the last recorded step
